@@ -7,6 +7,7 @@ D="$(realpath "$1")"; shift
 BUDGET=60
 if [ "${1:-}" = "--budget" ]; then BUDGET="$2"; shift 2; fi
 cd /verif
+export VERIF_EVIDENCE_DIR=/verif/build/tmp/mutant-evidence
 if [ -n "$(git -C /repo status --porcelain --untracked-files=no)" ]; then echo "/repo has uncommitted changes; refusing" >&2; exit 2; fi
 git -C /repo apply "$D/patch.diff" || { echo "patch does not apply" >&2; exit 2; }
 trap 'git -C /repo checkout -- . ; echo "[/repo restored; rebuilding]"; /verif/build.sh sim tsan asan > /dev/null 2>&1' EXIT
